@@ -1918,3 +1918,6 @@ mod tests {
         Ok(())
     }
 }
+
+#[cfg(feature = "verif-hooks")]
+pub mod verif_c12;
